@@ -18,7 +18,7 @@ FN = {'N': F.NEGATE, 'M': F.MINUSNEGATE, 'A': F.NEGATEALL, 'S': F.SPLIT, 'B': F.
 GL = dict(FN, G=G.GLOBSTAR, O=G.NODIR)
 
 POOL = {
-    'fn': ['*', 'a*', '.*', '*.a', '[!a]*', '@(a|b)', '!(a)', '\\!a', '\\-a', '[|]', 'a\\|b', '?(a|b)c', '[!|]a', '@(a|[|])', '@(a\\)|b)', '*(\\||a)', '@(a|\\(|b)', '[]|]', '[[:alpha:]|]', '[!]|]a'],
+    'fn': ['*', 'a*', '.*', '*.a', '[!a]*', '@(a|b)', '!(a)', '\\!a', '\\-a', '[|]', 'a\\|b', '?(a|b)c', '[!|]a', '@(a|[|])', '@(a\\)|b)', '*(\\||a)', '@(a|\\(|b)', '[]|]', '[[:alpha:]|]', '[!]|]a', '[a\\/|b]'],
     'glob': ['*', 'a/*', '**', '**/.a', '*/', '*.a', '.*', '@(a|b)/*', '!(a)', '\\!a', '[|]/a', 'a\\|b', '@(a\\)|b)', '@(a|[)]|b)/*', '[]|]', '[[:digit:]|]/a'],
 }
 EXCL = {
